@@ -360,6 +360,73 @@ def parseRoute (pattern : Bytes) : Option Parser :=
     | none => none
     | some segs => some { segs := segs, params := paramNames segs }
 
+/-! ### parsing a case-folded pattern with the constraints as written
+    (path.go `parseRouteWritten`, commit "constraints keep the letter case they were written in") -/
+
+/-- path.go `analyseParameterPart(pattern, written, …)`: everything is decided on `p` (the pattern
+    the router matches on, lower-cased unless CaseSensitive); only the text between the constraint
+    brackets is cut, at the offsets found on `p`, from `w` (the pattern as written, same length). -/
+def analyseParameterPartW (p w : Bytes) (wc pc : Nat) : Option (Nat × Seg × Nat × Nat) :=
+  let c0 := p.headD 0
+  let isWild := c0 == STAR
+  let isPlus := c0 == PLUS
+  let pe0 : Option Nat :=
+    if p.contains LT && p.contains GT then findCharsetConstraint (p.drop 1) paramEndChars
+    else fnne (p.drop 1) paramEndChars
+  let pe : Nat :=
+    if isWild || isPlus then 0
+    else match pe0 with
+      | none => p.length - 1
+      | some e => if paramDelimChars.contains (p.getD (e + 1) 0) then e else e + 1
+  let cS : Option Nat := if pe > 0 then fnnecp (p.take pe) LT else none
+  let cE : Option Nat := if pe > 0 then lastIndexByte (p.take (pe + 1)) GT else none
+  let processed := p.take (pe + 1)
+  let n := pe + 1
+  let name0 := removeEscapeChar (getTrimmedParam processed)
+  let parsed : Option (Bytes × List Constraint) :=
+    match cS, cE with
+    | some s, some e =>
+      if e < s + 1 then none
+      else
+        let cstr := (w.take e).drop (s + 1)
+        match (splitNonEscaped cstr SEMI).mapM parseConstraint with
+        | none => none
+        | some cs => some (removeEscapeChar (getTrimmedParam (p.take s)), cs)
+    | _, _ => some (name0, [])
+  match parsed with
+  | none => none
+  | some (name, cs) =>
+    let wc' := if isWild then wc + 1 else wc
+    let pc' := if !isWild && isPlus then pc + 1 else pc
+    let name := if isWild then name ++ natToDec wc' else if isPlus then name ++ natToDec pc' else name
+    some (n, { paramName := name, isParam := true,
+               isOptional := isWild || p.getD pe 0 == QMARK,
+               isGreedy := isWild || isPlus, constraints := cs }, wc', pc')
+
+/-- The loop of `parseRouteWritten`: `pattern = pattern[n:]; written = written[n:]`. -/
+def parseLoopW : Nat → Bytes → Bytes → Nat → Nat → Option (List Seg)
+  | 0, _, _, _, _ => some []
+  | fuel + 1, p, w, wc, pc =>
+    if p.isEmpty then some []
+    else match findNextParamPosition p with
+      | some 0 =>
+        match analyseParameterPartW p w wc pc with
+        | none => none
+        | some (n, seg, wc', pc') => (parseLoopW fuel (p.drop n) (w.drop n) wc' pc').map (seg :: ·)
+      | np =>
+        let (n, seg) := analyseConstantPart p np
+        (parseLoopW fuel (p.drop n) (w.drop n) wc pc).map (seg :: ·)
+
+/-- path.go `parseRouteWritten(pattern, written)`; a `written` of another length is ignored. -/
+def parseRouteW (pattern written : Bytes) : Option Parser :=
+  let written := if written.length != pattern.length then pattern else written
+  match parseLoopW pattern.length pattern written 0 0 with
+  | none => none
+  | some raw =>
+    match addParameterMetaInfo (markLast raw) with
+    | none => none
+    | some segs => some { segs := segs, params := paramNames segs }
+
 /-! ### constraint evaluation (path.go `CheckConstraint`) -/
 
 /-- `strconv.Atoi` on 64-bit: optional sign, ≥ 1 digit, value in int64 range. Returns the value Go
@@ -379,6 +446,156 @@ def atoi (s : Bytes) : Int × Bool :=
 def parseBoolOK (s : Bytes) : Bool :=
   [b "1", b "t", b "T", b "TRUE", b "true", b "True",
    b "0", b "f", b "F", b "FALSE", b "false", b "False"].contains s
+
+/-! #### `strconv.ParseFloat(param, 32)` and `uuid.Parse(param)`: is the error nil? -/
+
+/-- strconv `lower(c)`: `c | ('x' - 'X')`. -/
+def lowerOr (c : Nat) : Nat := c ||| 32
+
+/-- strconv `commonPrefixLenIgnoreCase(s, prefix)` (`prefix` is lower case). -/
+def commonPrefixLenIC : Bytes → Bytes → Nat
+  | c :: s, p :: ps => if lowerByte c == p then 1 + commonPrefixLenIC s ps else 0
+  | _, _ => 0
+
+/-- the `case 'i', 'I'` body of strconv `special`: bytes consumed by `inf` / `infinity` -/
+def infLen (t : Bytes) (nsign : Nat) : Option Nat :=
+  let n := commonPrefixLenIC t (b "infinity")
+  let n := if 3 < n && n < 8 then 3 else n
+  if n == 3 || n == 8 then some (nsign + n) else none
+
+/-- strconv `special`: bytes consumed by an optionally signed `inf`/`infinity` or an unsigned `nan`
+    (the sign case falls through into the `inf` case only). -/
+def floatSpecial (s : Bytes) : Option Nat :=
+  match s with
+  | [] => none
+  | c :: rest =>
+    if c == 43 || c == 45 then infLen rest 1
+    else if c == 105 || c == 73 then infLen s 0
+    else if c == 110 || c == 78 then (if commonPrefixLenIC s (b "nan") == 3 then some 3 else none)
+    else none
+
+/-- state of the mantissa loop of strconv `readFloat`; `digits` is the value of *all* digits read
+    (the Go code keeps 19 / 16 of them plus a sticky bit and rounds correctly from there) -/
+structure Mant where
+  sawdot : Bool := false
+  sawdigits : Bool := false
+  digits : Nat := 0
+  frac : Nat := 0
+  underscores : Bool := false
+  deriving DecidableEq, Repr
+
+/-- the `loop:` of `readFloat`: returns the state and the unread rest -/
+def scanMant (hex : Bool) : Bytes → Mant → Mant × Bytes
+  | [], m => (m, [])
+  | c :: rest, m =>
+    if c == 95 then scanMant hex rest { m with underscores := true }
+    else if c == DOT then (if m.sawdot then (m, c :: rest) else scanMant hex rest { m with sawdot := true })
+    else if isDigit c then
+      scanMant hex rest { m with sawdigits := true, digits := m.digits * (if hex then 16 else 10) + (c - 48),
+                                 frac := if m.sawdot then m.frac + 1 else m.frac }
+    else if hex && 97 ≤ lowerOr c && lowerOr c ≤ 102 then
+      scanMant hex rest { m with sawdigits := true, digits := m.digits * 16 + (lowerOr c - 87),
+                                 frac := if m.sawdot then m.frac + 1 else m.frac }
+    else (m, c :: rest)
+
+/-- the exponent digits loop of `readFloat` (`if e < 10000 { e = e*10 + d }`): value, saw an
+    underscore, unread rest -/
+def scanExp : Bytes → Nat → Bool → Nat × Bool × Bytes
+  | [], e, u => (e, u, [])
+  | c :: rest, e, u =>
+    if c == 95 then scanExp rest e true
+    else if isDigit c then scanExp rest (if e < 10000 then e * 10 + (c - 48) else e) u
+    else (e, u, c :: rest)
+
+/-- strconv `underscoreOK`: underscores only between digits or between a base prefix and a digit.
+    `saw`: 94 '^' start, 48 '0' digit, 95 '_' underscore, 33 '!' other. -/
+def underscoreLoop (hex : Bool) : Bytes → Nat → Bool
+  | [], saw => saw != 95
+  | c :: rest, saw =>
+    if isDigit c || (hex && 97 ≤ lowerOr c && lowerOr c ≤ 102) then underscoreLoop hex rest 48
+    else if c == 95 then (if saw != 48 then false else underscoreLoop hex rest 95)
+    else if saw == 95 then false
+    else underscoreLoop hex rest 33
+
+def underscoreOK (s : Bytes) : Bool :=
+  let s := match s with | c :: r => if c == 45 || c == 43 then r else s | [] => s
+  match s with
+  | c0 :: c1 :: r =>
+    if c0 == 48 && (lowerOr c1 == 98 || lowerOr c1 == 111 || lowerOr c1 == 120)
+    then underscoreLoop (lowerOr c1 == 120) r 48
+    else underscoreLoop false s 94
+  | _ => underscoreLoop false s 94
+
+/-- the least magnitude that rounds (to nearest, ties to even) beyond the largest float32:
+    `(2²⁵ − 1) · 2¹⁰³ = 2¹²⁸ − 2¹⁰³`; `ParseFloat(_, 32)` reports a range error from there on. -/
+def float32Overflow : Nat := (2 ^ 25 - 1) * 2 ^ 103
+
+/-- `digits · base^E < float32Overflow`, exactly (`len` bounds the number of digits). -/
+def belowOverflow (digits base : Nat) (E : Int) (len : Nat) : Bool :=
+  if digits == 0 then true
+  else if E ≥ 0 then (if E ≥ 128 then false else decide (digits * base ^ E.toNat < float32Overflow))
+  else if (-E).toNat ≥ len then true
+  else decide (digits < float32Overflow * base ^ (-E).toNat)
+
+/-- `_, err := strconv.ParseFloat(s, 32); err == nil` — syntax by transcription of `special`,
+    `readFloat`, `underscoreOK` and the "whole string consumed" test of `ParseFloat`; the range error
+    by the documented result (correctly rounded: error iff the magnitude rounds beyond the largest
+    float32). -/
+def parseFloat32OK (s : Bytes) : Bool :=
+  match floatSpecial s with
+  | some n => n == s.length
+  | none =>
+    if s.isEmpty then false
+    else
+      let t := match s with | c :: r => if c == 43 || c == 45 then r else s | [] => s
+      let hex := t.length > 2 && t.getD 0 0 == 48 && lowerOr (t.getD 1 0) == 120
+      let (m, rest) := scanMant hex (if hex then t.drop 2 else t) {}
+      if !m.sawdigits then false
+      else
+        let expChar : Nat := if hex then 112 else 101
+        -- (exponent × sign, underscores in it, unread rest); `none` = syntax error
+        let ex : Option (Int × Bool × Bytes) :=
+          match rest with
+          | c :: r1 =>
+            if lowerOr c == expChar then
+              match r1 with
+              | [] => none
+              | c2 :: r2 =>
+                let (neg, r3) := if c2 == 43 then (false, r2) else if c2 == 45 then (true, r2) else (false, r1)
+                match r3 with
+                | [] => none
+                | c3 :: _ =>
+                  if !isDigit c3 then none
+                  else
+                    let (e, u, r4) := scanExp r3 0 false
+                    some (if neg then -(e : Int) else (e : Int), u, r4)
+            else if hex then none else some (0, false, rest)
+          | [] => if hex then none else some (0, false, [])
+        match ex with
+        | none => false
+        | some (e, u, r) =>
+          if !r.isEmpty then false
+          else if (m.underscores || u) && !underscoreOK s then false
+          else if hex then belowOverflow m.digits 2 (e - 4 * (m.frac : Int)) (4 * s.length)
+          else belowOverflow m.digits 10 (e - (m.frac : Int)) s.length
+
+def isHexDigit (c : Nat) : Bool := isDigit c || (97 ≤ c && c ≤ 102) || (65 ≤ c && c ≤ 70)
+
+/-- the tail of google/uuid `Parse`: `xxxxxxxx-xxxx-xxxx-xxxx-xxxxxxxxxxxx` in the first 36 bytes -/
+def uuidCore (s : Bytes) : Bool :=
+  s.getD 8 0 == DASH && s.getD 13 0 == DASH && s.getD 18 0 == DASH && s.getD 23 0 == DASH &&
+  [0, 2, 4, 6, 9, 11, 14, 16, 19, 21, 24, 26, 28, 30, 32, 34].all
+    (fun x => isHexDigit (s.getD x 0) && isHexDigit (s.getD (x + 1) 0))
+
+/-- `_, err := uuid.Parse(s); err == nil` (google/uuid v1.6.0): by length — 36 plain, 45 with a
+    case-insensitive `urn:uuid:`, 38 with any one byte before and after (the braces are not
+    checked), 32 hex digits. -/
+def uuidParseOK (s : Bytes) : Bool :=
+  if s.length == 36 then uuidCore s
+  else if s.length == 45 then equalFold (s.take 9) (b "urn:uuid:") && uuidCore (s.drop 9)
+  else if s.length == 38 then uuidCore (s.drop 1)
+  else if s.length == 32 then s.all isHexDigit
+  else false
 
 /-- `CheckConstraint` for the kinds the model evaluates itself (no custom constraint of that name
     registered). `data, _ := strconv.Atoi(c.Data[0])` ignores the error, as the Go code does. -/
@@ -400,24 +617,28 @@ def checkExact (c : Constraint) (v : Bytes) : Bool :=
   | .max => !needOne && (atoi v).2 && !((atoi v).1 > d0)
   | .range => !needTwo && (atoi v).2 && !((atoi v).1 < d0 || (atoi v).1 > d1)
   | .datetime | .regex => !needOne       -- the "required data" gate; the rest is abstract
-  | .float | .guid => true
+  | .float => parseFloat32OK v
+  | .guid => uuidParseOK v
 
 /-- Does the verdict of `c` on `v` involve the abstract predicate? `custom` = names of the
-    registered custom constraints (they override built-ins of the same name). -/
+    registered custom constraints (they override built-ins of the same name). Abstract: custom
+    constraints, regex, datetime, and alpha on values with a non-ASCII byte (`unicode.IsLetter` on
+    the decoded runes). (guid's `strings.EqualFold(s[:9], "urn:uuid:")` works on runes too, but no
+    non-ASCII rune folds to a letter of that prefix, so the byte-wise test is exact.) -/
 def Constraint.abstractOn (custom : List Bytes) (c : Constraint) (v : Bytes) : Bool :=
   custom.contains c.name ||
   (match c.id with
-   | .float | .guid | .datetime | .regex => true
+   | .datetime | .regex => true
    | .alpha => v.any (· ≥ 128)
    | _ => false)
 
-/-- `CheckConstraint`: `abs` is the abstract verdict (regex / datetime / float / guid / custom /
-    `unicode.IsLetter` on non-ASCII input), supplied by the harness from the real code at run time
-    and universally quantified in the theorems. -/
+/-- `CheckConstraint`: `abs` is the abstract verdict (regex / datetime / custom constraints /
+    `unicode.IsLetter` on non-ASCII input), supplied by the harness from the
+    real code at run time and universally quantified in the theorems; every other built-in is
+    decided by `checkExact`. -/
 def checkConstraint (custom : List Bytes) (abs : Constraint → Bytes → Bool) (c : Constraint) (v : Bytes) : Bool :=
   if custom.contains c.name then abs c v
   else match c.id with
-    | .float | .guid => abs c v
     | .datetime | .regex => checkExact c v && abs c v
     | .alpha => if v.any (· ≥ 128) then abs c v else checkExact c v
     | _ => checkExact c v
@@ -518,12 +739,21 @@ def rawPattern (p : Bytes) : Bytes :=
   let p := if p.isEmpty then [SLASH] else p
   if p.headD 0 != SLASH then SLASH :: p else p
 
-/-- router.go `register` (one method). `none` = registration panics. -/
+/-- The pattern as written, minus the trailing slashes the configuration makes insignificant — no
+    case folding. It is the text `register` reads the constraints from: `pathRaw[:len(pathPretty)]`
+    (`writtenPattern_eq_take`). -/
+def writtenPattern (cfg : Config) (p : Bytes) : Bytes :=
+  let raw := rawPattern p
+  if !cfg.strictRouting && raw.length > 1 then trimRight raw SLASH else raw
+
+/-- router.go `register` (one method). `none` = registration panics. The routed parser comes from
+    the prettified pattern, its constraint text from the pattern as written (commit "constraints
+    keep the letter case they were written in"). -/
 def register (cfg : Config) (use : Bool) (pattern : Bytes) : Option Route :=
   let raw := rawPattern pattern
   let pretty := prettyPattern cfg pattern
   let clean := removeEscapeChar pretty
-  match parseRoute raw, parseRoute pretty with
+  match parseRoute raw, parseRouteW pretty (raw.take pretty.length) with
   | some pr, some pp =>
     some { pathRaw := raw, path := clean, params := pr.params, parser := pp, use := use,
            star := pretty == [SLASH, STAR], root := clean == [SLASH] }
@@ -598,6 +828,18 @@ def paramsLookup (cfg : Config) (names : List Bytes) (vals : List Bytes) (key : 
   | some nv => nv.2
   | none => []
 
+/-- ctx.go `Params`: which declared name answers to a key — same length, and equal or (unless
+    CaseSensitive) equal under ASCII case folding. -/
+def keyMatch (cfg : Config) (n key : Bytes) : Bool :=
+  n.length == key.length && (n == key || (!cfg.caseSensitive && equalFold n key))
+
+/-- ctx.go `Params`: `if key == "*" || key == "+" { key += "1" }`. -/
+def paramsKey (key : Bytes) : Bytes := if key == [STAR] || key == [PLUS] then key ++ [49] else key
+
+/-- ctx.go `Params(key)` for an arbitrary key. -/
+def paramsGet (cfg : Config) (names : List Bytes) (vals : List Bytes) (key : Bytes) : Bytes :=
+  paramsLookup cfg names vals (paramsKey key)
+
 /-- path.go `RoutePatternMatch(path, pattern, cfg)`; `none` = panic while parsing. -/
 def routePatternMatch (chk : Constraint → Bytes → Bool) (cfg : Config) (path pattern : Bytes) : Option Bool :=
   let path := if path.isEmpty then [SLASH] else path
@@ -607,7 +849,7 @@ def routePatternMatch (chk : Constraint → Bytes → Bool) (cfg : Config) (path
   let path := if cfg.unescapePath then unquote path else path
   let det := if !cfg.caseSensitive then toLower path else path
   let det := if !cfg.strictRouting && det.length > 1 then trimRight det SLASH else det
-  match parseRoute pretty with
+  match parseRouteW pretty ((rawPattern pattern).take pretty.length) with
   | none => none
   | some pp =>
     if pretty == [SLASH] && det == [SLASH] then some true
